@@ -142,7 +142,7 @@ class World(object):
         self.defs = {t: {'deps': [], 'targets': [], 'uptodate': []} for t in range(ntasks)}
         self.plan = {}
         self.db = 'deps-' + backend
-        self.performed = []      # (task, [[p, cid, real_mtime]...]) appended by actions run in this process
+        self.hashseed = None     # not None: every doit invocation in a fresh interpreter, PYTHONHASHSEED varied
 
     def tick(self):
         self.clock += 1
@@ -217,7 +217,11 @@ class World(object):
         return ns
 
     def doit(self, argv, reporter=None):
-        """one in-process doit invocation; returns (exit code | ['exc', type], stdout, stderr)"""
+        """one doit invocation; returns (exit code | ['exc', type], stdout, stderr).
+        In-process by default; with `self.hashseed` set, in a fresh interpreter with PYTHONHASHSEED = that value
+        (incremented per invocation), so that set iteration orders differ between the runs of one history."""
+        if self.hashseed is not None:
+            return self._doit_sub(argv, reporter)
         from doit.doit_cmd import DoitMain
         from doit.cmd_base import ModuleTaskLoader
         ns = self.namespace()
@@ -236,6 +240,26 @@ class World(object):
             except BaseException as e:  # noqa
                 code = ['exc', type(e).__name__]
         return code, out.getvalue(), err.getvalue()
+
+    def _doit_sub(self, argv, reporter):
+        import subprocess
+        self.hashseed += 1
+        req = {'backend': self.backend, 'checker': self.checker, 'ntasks': self.ntasks, 'npaths': self.npaths,
+               'defs': {str(t): d for t, d in self.defs.items()}, 'plan': self.plan, 'argv': list(argv),
+               'repo': common.REPO, 'want_events': reporter is not None}
+        env = dict(os.environ, PYTHONHASHSEED=str(self.hashseed), VERIF_REPO=common.REPO,
+                   PYTHONDONTWRITEBYTECODE='1')
+        p = subprocess.run([common.PYTHON, os.path.abspath(__file__), '--child'], input=json.dumps(req), text=True,
+                           stdout=subprocess.PIPE, stderr=subprocess.PIPE, env=env, timeout=120)
+        try:
+            ans = json.loads(p.stdout.strip().split('\n')[-1])
+        except Exception:  # noqa
+            return ['exc', 'child-died'], p.stdout, p.stderr
+        if reporter is not None:
+            reporter.events = [tuple(e) if e[2] is None else (e[0], e[1], tuple(e[2]) if isinstance(e[2], list) else e[2])
+                               for e in ans['events']]
+        code = ans['code']
+        return code, ans['out'], ans['err']
 
     # -- logical DB dump through the backend API
     def dump(self):
@@ -329,6 +353,8 @@ def run_history(case, stop_on_crash=True):
         'db': logical dump after the op}"""
     common.use_repo()
     w = World(case['backend'], case['checker'], case['ntasks'], case['npaths'])
+    if case.get('hashseed') is not None:
+        w.hashseed = int(case['hashseed'])
     obs = []
     for op in case['ops']:
         kind = op[0]
@@ -772,8 +798,11 @@ def _model_would_crash(case, obs, i, steps, a, b):
 # rendering and shrinking
 
 def render(case):
-    out = ['backend=%s checker=%s tasks=%d files=%d' % (case['backend'], case['checker'], case['ntasks'],
-                                                       case['npaths'])]
+    out = ['backend=%s checker=%s tasks=%d files=%d%s' % (case['backend'], case['checker'], case['ntasks'],
+                                                         case['npaths'],
+                                                         '' if case.get('hashseed') is None else
+                                                         ' (every doit invocation in a fresh interpreter, '
+                                                         'PYTHONHASHSEED=%d+k)' % case['hashseed'])]
     for op in case['ops']:
         k = op[0]
         if k == 'edit':
@@ -829,6 +858,19 @@ def shrink(case, still_fails, max_evals=120):
             return False
 
     cur = json.loads(json.dumps(case))
+
+    def used_tasks(c):
+        m = 0
+        for op in c['ops']:
+            if op[0] == 'redefine':
+                m = max(m, op[1] + 1)
+                m = max([m] + [i[1] + 1 for i in op[2]['uptodate'] if i[0] == 'res'])
+            elif op[0] in ('forget', 'ignore', 'reset-dep'):
+                m = max([m] + [t + 1 for t in op[1]])
+            elif op[0] == 'run':
+                m = max([m] + [t + 1 for t in (op[1].get('sel') or [])])
+        return max(1, m)
+
     changed = True
     while changed and evals[0] < max_evals:
         changed = False
@@ -869,6 +911,11 @@ def shrink(case, still_fails, max_evals=120):
                             d = d2
                             op = cand['ops'][i]
                             changed = True
+        n = used_tasks(cur)
+        if n < cur['ntasks']:
+            cand = dict(cur, ntasks=n)
+            if test(cand):
+                cur = cand
     return cur
 
 
@@ -1101,6 +1148,11 @@ def expand_corpus(prop):
                     cc = json.loads(json.dumps(c))
                     cc['backend'], cc['checker'] = b, ck
                     out.append((name, cc))
+            if c.get('hashseeds'):
+                for hs in c['hashseeds']:
+                    cc = json.loads(json.dumps(c))
+                    cc['hashseed'] = hs
+                    out.append((name, cc))
         else:
             out.append((name, c))
     return out
@@ -1115,7 +1167,7 @@ def nontrivial(case, v):
 
 
 def strip(case):
-    return {k: case[k] for k in ('backend', 'checker', 'ntasks', 'npaths', 'ops')}
+    return {k: case[k] for k in ('backend', 'checker', 'ntasks', 'npaths', 'ops', 'hashseed') if k in case}
 
 
 def failing_predicate(prop):
@@ -1137,6 +1189,8 @@ def process_batch(arg):
         st.case({'history': render(case)}, nontrivial(case, v))
         st.traces += 1
         st.count('origin:' + origin)
+        if case.get('hashseed') is not None:
+            st.count('mode:fresh-interpreter-per-invocation')
         st.count('backend:' + case['backend'])
         st.count('checker0:' + case['checker'])
         st.count('tasks:%d' % case['ntasks'])
@@ -1182,32 +1236,65 @@ def process_batch(arg):
     return st
 
 
-def run_property(ctx, prop, n_random, exh_len, macro_len, parallel_share=0.0, n_info=0):
-    rng = ctx.rng
+def run_property(ctx, prop, n_random, exh_len, macro_len, parallel_share=0.0, n_info=0, sub_share=0.02):
+    """corpus first, then the small-scope exhaustive tier, then random histories -- in rounds, until everything is
+    done or the time budget of the tier is used up (what was left out is written to the evidence)"""
     items = []
     corpus = expand_corpus(prop)
     for name, c in corpus:
         items.append(('corpus', c))
     seeds = [c for _, c in corpus]
+    ex = exhaustive_cases(exh_len, macro_len)
+    ex.sort(key=lambda c: len(c['word']))
+    ctx.extra['exhaustive_small_scope'] = {
+        'alphabet': len(EXH_ALPHABET), 'max_len': exh_len, 'macro_alphabet': len(EXH_MACRO),
+        'macro_max_len': macro_len, 'histories': len(ex),
+        'filter': 'ends in run / failing run / reset-dep; plain words contain an earlier run or reset'}
+    short = [c for c in ex if len(c['word']) <= 3]
+    rest = [c for c in ex if len(c['word']) > 3]
+    for c in short:
+        items.append(('exhaustive', c))
+    rnd = []
     for i in range(n_random):
         r = random_for(ctx, i)
         if seeds and r.random() < 0.15:
-            items.append(('corpus-mutation', mutate_case(r, r.choice(seeds))))
+            rnd.append(('corpus-mutation', mutate_case(r, r.choice(seeds))))
         else:
             par = r.random() < parallel_share
-            items.append(('random-parallel' if par else 'random', gen_case(r, parallel=par)))
+            c = gen_case(r, parallel=par)
+            if not par and r.random() < sub_share:
+                c['hashseed'] = r.randrange(1, 1000)
+            rnd.append(('random-parallel' if par else 'random', c))
     for i in range(n_info):
-        items.append(('informational', gen_case(random_for(ctx, 'info%d' % i), informational=True)))
-    ex = exhaustive_cases(exh_len, macro_len)
-    ctx.extra['exhaustive_small_scope'] = {'alphabet': len(EXH_ALPHABET), 'max_len': exh_len, 'macro_alphabet': len(EXH_MACRO),
-                                           'macro_max_len': macro_len, 'histories': len(ex),
-                                           'filter': 'ends in run / failing run / reset-dep; plain words contain an earlier run or reset'}
-    for c in ex:
+        rnd.append(('informational', gen_case(random_for(ctx, 'info%d' % i), informational=True)))
+    # interleave the long exhaustive words with the random histories
+    k = max(1, len(rest) // max(1, len(rnd))) if rnd else 1
+    ri = 0
+    for j, it in enumerate(rnd):
+        items.append(it)
+        for c in rest[ri:ri + k]:
+            items.append(('exhaustive', c))
+        ri += k
+    for c in rest[ri:]:
         items.append(('exhaustive', c))
-    size = max(8, min(60, len(items) // (common.NCPU * 3) + 1))
+    size = 12
     batches = [(prop, items[i:i + size]) for i in range(0, len(items), size)]
-    for st in common.pmap(process_batch, batches):
-        st.merge_into(ctx)
+    per_round = common.NCPU * 2
+    done = 0
+    for r0 in range(0, len(batches), per_round):
+        if r0 > 0 and ctx.time_left() <= 0:
+            break
+        for st in common.pmap(process_batch, batches[r0:r0 + per_round]):
+            st.merge_into(ctx)
+        done = min(len(batches), r0 + per_round)
+        if ctx.violations and len(ctx.violations) >= 5:
+            break
+    left = sum(len(b[1]) for b in batches[done:])
+    ctx.extra['histories_planned'] = len(items)
+    ctx.extra['histories_not_run_budget_exhausted'] = left
+    if left:
+        ctx.note('time budget of the tier used up: %d of %d planned histories were not run (corpus and the short '
+                 'exhaustive words always run first)' % (left, len(items)))
 
 
 def random_for(ctx, i):
@@ -1237,3 +1324,22 @@ def replay_case(ctx, data, prop):
         print('doit crashed:', v.crash)
     bad = v.c03 if prop == 'C03' else v.c04
     return not bad and not (w.get('impl') is not None and v.divergence)
+
+
+def _child_main():
+    """one doit invocation in this (fresh) interpreter; request on stdin, answer as the last stdout line"""
+    import sys
+    req = json.loads(sys.stdin.read())
+    common.use_repo()
+    w = World(req['backend'], req['checker'], req['ntasks'], req['npaths'])
+    w.defs = {int(t): d for t, d in req['defs'].items()}
+    w.plan = req['plan']
+    rep = RecordingReporter() if req['want_events'] else None
+    code, out, err = w.doit(req['argv'], rep)
+    print(json.dumps({'code': code, 'out': out, 'err': err, 'events': rep.events if rep else []}))
+
+
+if __name__ == '__main__':
+    import sys
+    if '--child' in sys.argv:
+        _child_main()
